@@ -391,6 +391,75 @@ def builderMethods : List (String × String × String) :=
    ("HeaderBuilder", "text_value", "{ self . 0 . rest . push ( ( Label : : Text ( label ) , value ) ) ; self }"),
    ("HeaderBuilder", "value", "{ if label > = iana : : HeaderParameter : : Alg . to_i64 ( ) & & label < = iana : : HeaderParameter : : CounterSignature . to_i64 ( ) { panic ! ( \" value ( ) method used to set core header parameter \" ) ; } self . 0 . rest . push ( ( Label : : Int ( label ) , value ) ) ; self }")]
 
+/-- F11: decision budget — (module, construct or integer literal, occurrences) in non-test code -/
+def decisionBudget : List (String × String × Nat) :=
+  [("common", "if", 6),
+   ("common", "match", 12),
+   ("common", "!=", 2),
+   ("common", "lit:0", 6),
+   ("common", "lit:1", 12),
+   ("util", "if", 7),
+   ("util", "match", 1),
+   ("header", "if", 22),
+   ("header", "match", 3),
+   ("header", "==", 2),
+   ("header", "!=", 2),
+   ("header", "<=", 1),
+   ("header", ">=", 1),
+   ("header", "&&", 9),
+   ("header", "lit:0", 3),
+   ("header", "lit:1", 4),
+   ("header", "lit:16", 1),
+   ("sign", "if", 4),
+   ("sign", "match", 5),
+   ("sign", "!=", 3),
+   ("sign", "lit:0", 3),
+   ("sign", "lit:1", 3),
+   ("sign", "lit:2", 3),
+   ("sign", "lit:3", 3),
+   ("sign", "lit:4", 2),
+   ("mac", "if", 2),
+   ("mac", "match", 5),
+   ("mac", "!=", 2),
+   ("mac", "lit:0", 2),
+   ("mac", "lit:1", 2),
+   ("mac", "lit:2", 2),
+   ("mac", "lit:3", 2),
+   ("mac", "lit:4", 2),
+   ("mac", "lit:5", 1),
+   ("encrypt", "if", 5),
+   ("encrypt", "match", 9),
+   ("encrypt", "==", 1),
+   ("encrypt", "!=", 4),
+   ("encrypt", "&&", 1),
+   ("encrypt", "lit:0", 3),
+   ("encrypt", "lit:1", 3),
+   ("encrypt", "lit:2", 3),
+   ("encrypt", "lit:3", 4),
+   ("encrypt", "lit:4", 3),
+   ("key", "if", 10),
+   ("key", "match", 2),
+   ("key", "==", 1),
+   ("context", "if", 5),
+   ("context", "match", 6),
+   ("context", "==", 1),
+   ("context", "!=", 3),
+   ("context", "&&", 1),
+   ("context", "lit:0", 3),
+   ("context", "lit:1", 3),
+   ("context", "lit:2", 4),
+   ("context", "lit:3", 4),
+   ("context", "lit:4", 2),
+   ("cwt", "if", 16),
+   ("cwt", "match", 4),
+   ("cwt", "==", 7),
+   ("cwt", "<=", 1),
+   ("cwt", ">=", 1),
+   ("cwt", "&&", 1),
+   ("iana", "if", 1),
+   ("iana", "match", 1),
+   ("iana", "==", 1)]
+
 def ianaMacroHash : String := "3986b2136fa3151f"
 
 end Coset.Pinned
